@@ -1408,18 +1408,33 @@ namespace awkward {
   ForthMachineOf<T, I>::is_integer(const std::string& word, int64_t& value) const {
     if (word.size() >= 2  &&  word.substr(0, 2) == std::string("0x")) {
       try {
-        value = (int64_t)std::stoul(word.substr(2, word.size() - 2), nullptr, 16);
+        std::string digits = word.substr(2, word.size() - 2);
+        size_t used = 0;
+        value = (int64_t)std::stoul(digits, &used, 16);
+        if (used != digits.size()) {
+          return false;
+        }
       }
       catch (std::invalid_argument& err) {
+        return false;
+      }
+      catch (std::out_of_range& err) {
         return false;
       }
       return true;
     }
     else {
       try {
-        value = (int64_t)std::stoul(word, nullptr, 10);
+        size_t used = 0;
+        value = (int64_t)std::stoul(word, &used, 10);
+        if (used != word.size()) {
+          return false;
+        }
       }
       catch (std::invalid_argument& err) {
+        return false;
+      }
+      catch (std::out_of_range& err) {
         return false;
       }
       return true;
@@ -1460,9 +1475,16 @@ namespace awkward {
     if (parser.length() > 5  &&  parser.substr(parser.length() - 5, 5) == "bit->") {
       std::string number = parser.substr(0, parser.length() - 5);
       try {
-        value = std::stoi(number, nullptr, 10);
+        size_t used = 0;
+        value = std::stoi(number, &used, 10);
+        if (used != number.size()) {
+          return false;
+        }
       }
       catch (std::invalid_argument& err) {
+        return false;
+      }
+      catch (std::out_of_range& err) {
         return false;
       }
       if (0 < value  &&  value <= 64) {
